@@ -269,7 +269,17 @@ func (pr *Program) execute(p *PathCtx, ip *Interp, fn *ssa.Function) (res PathRe
 			}
 			res = PathResult{End: kind, Msg: e.msg}
 		default:
-			res = PathResult{End: "engine", Msg: fmt.Sprintf("internal error: %v\n%s", r, firstLines(string(debug.Stack()), 30))}
+			where := ""
+			if ip.curFn != nil {
+				where = " in " + ip.curFn.String()
+				if ip.curInstr != nil {
+					where += " at " + pr.Fset.Position(ip.curInstr.Pos()).String() + " [" + ip.curInstr.String() + "]"
+				}
+			}
+			if len(ip.stack) > 0 {
+				where += " stack=" + strings.Join(ip.stack, " > ")
+			}
+			res = PathResult{End: "engine", Msg: fmt.Sprintf("internal error%s: %v\n%s", where, r, firstLines(string(debug.Stack()), 12))}
 		}
 	}()
 	ip.callFunction(fn, nil)
